@@ -16,7 +16,9 @@ KEY_POOL_ODD = ["line\u2028sep", "para\u2029sep", "nel\x85key", "tab\tastral\U00
                 "dir\\bin", "C:\\temp", "opt\nname", "sq'key", 'dq"key', "trailing\\", "both'\"quotes"]
 # keys whose first character is a symbol (JSON-LD "@context", JSON-Schema "$ref", XML-to-JSON "#text"), and names that are special as
 # method parameters: the generated class name / __init__ signature is where they matter
-KEY_POOL_PREFIXED = ["$ref", "@context", "#text", "#1st", "(2nd) place", "self", "cls", "%used", "<tag>", "~tilde"]
+KEY_POOL_PREFIXED = ["$ref", "@context", "#text", "#1st", "(2nd) place", "self", "cls", "%used", "<tag>", "~tilde",
+                     # reserved only after the symbol is removed and the rest is capitalised
+                     "$union", "$literal", "@baseModel", "#optional", "$list", "$field"]
 KEY_POOL_FULL = KEY_POOL_QUICK + KEY_POOL_ODD + [
     "None", "True", "import", "lambda", "object", "str", "int", "dict", "set", "Union", "Dict", "Literal", "Tuple",
     "validator", "fields", "copy", "schema", "date", "datetime", "time", "naïve", "été", "αβγ",
